@@ -4,6 +4,7 @@
 package limits
 
 import (
+	"bytes"
 	"io"
 	"net/http"
 	"net/url"
@@ -204,4 +205,40 @@ func VerifH17cParseSize() {
 		verifrt.Assert(num == 0 || num > (1<<63-1)/mult, "valid-size-accepted")
 	}
 	verifrt.Observe("size", got >= 1)
+}
+
+// zzReadAllNext reads the whole request body as a content handler would and keeps what it got.
+type zzReadAllNext struct {
+	got []byte
+	err error
+}
+
+func (n *zzReadAllNext) ServeHTTP(w http.ResponseWriter, r *http.Request) (int, error) {
+	n.got, n.err = io.ReadAll(r.Body)
+	return 0, nil
+}
+
+// VerifH17fThroughTheHandler: the limit as a content handler sees it behind Limit.ServeHTTP, for a
+// body of 0..4 bytes whose length is declared (Content-Length) or not (chunked, HTTP/2): the handler
+// receives the body unchanged iff it fits the limit; otherwise at most limit bytes and the too-large
+// error.
+func VerifH17fThroughTheHandler() {
+	limit := int64(verifrt.IntRange("limit", 0, 3))
+	n := verifrt.IntRange("bodylen", 0, 4)
+	body := verifrt.Bytes("body", n)
+	next := &zzReadAllNext{}
+	h := Limit{Next: next, BodyLimits: []httpserver.PathLimit{{Path: "/", Limit: limit}}}
+	r := &http.Request{Method: "POST", URL: &url.URL{Path: "/up"}, Header: http.Header{}, Body: io.NopCloser(bytes.NewReader(body)), ContentLength: int64(n)}
+	if verifrt.Bool("length-not-declared") {
+		r.ContentLength = -1
+		r.TransferEncoding = []string{"chunked"}
+	}
+	h.ServeHTTP(nil, r)
+	if int64(n) <= limit {
+		verifrt.Assert(next.err == nil && bytes.Equal(next.got, body), "body-within-the-limit-arrives-unchanged")
+	} else {
+		verifrt.Assert(next.err == httpserver.ErrMaxBytesExceeded, "body-over-the-limit-is-an-error")
+		verifrt.Assert(int64(len(next.got)) <= limit, "never-more-than-the-limit-delivered")
+	}
+	verifrt.Observe("through", len(next.got), next.err != nil)
 }
